@@ -84,22 +84,21 @@ def chk_radial(inp):
             got = ZK.zernikeRadialFunc(n, m, r.copy())
             if not numpy.allclose(got, radial_spec(n, m, r), rtol=1e-10, atol=1e-12):
                 return bad("zernikeRadialFunc(%d,%d) is not the factorial sum" % (n, m), got.tolist(), radial_spec(n, m, r).tolist())
-    # high radial orders against exact rational arithmetic (tolerance scaled by the size of the cancelling terms: float64 only)
+    # high radial orders against exact rational arithmetic: |R_n^m| <= 1 on [0, 1], so an absolute tolerance (no allowance for cancellation:
+    # a mode of order 50 has to be as normalised as one of order 5)
     from fractions import Fraction as Fr
     if not (inp and "n" in inp):
-        for n in (12, 19, 20, 21, 22, 25, 30):
+        for n in (12, 19, 20, 21, 22, 25, 30, 36, 40, 44, 50, 60, 80, 100):
             for m in sorted({n % 2, (n // 2) - ((n // 2 - n) % 2), n - 2, n}):
                 if m < 0 or (n - m) % 2:
                     continue
-                for q in (Fr(0), Fr(1, 4), Fr(1, 2), Fr(3, 4), Fr(1)):
-                    exact, size = Fr(0), Fr(0)
+                for q in (Fr(0), Fr(1, 4), Fr(1, 2), Fr(3, 4), Fr(9, 10), Fr(99, 100), Fr(1)):
+                    exact = Fr(0)
                     for i in range((n - m) // 2 + 1):
-                        t = Fr(math.factorial(n - i), math.factorial(i) * math.factorial((n + m) // 2 - i) * math.factorial((n - m) // 2 - i)) * q ** (n - 2 * i)
-                        exact += (-1) ** i * t
-                        size += t
+                        exact += (-1) ** i * Fr(math.factorial(n - i), math.factorial(i) * math.factorial((n + m) // 2 - i) * math.factorial((n - m) // 2 - i)) * q ** (n - 2 * i)
                     got = float(numpy.asarray(ZK.zernikeRadialFunc(n, m, numpy.array([[float(q)]]))).ravel()[0])
-                    if not abs(got - float(exact)) <= 1e-11 * float(size) + 1e-12:
-                        return bad("zernikeRadialFunc(%d,%d) at r=%s is not the factorial sum (exact rational evaluation)" % (n, m, q), got, float(exact))
+                    if not abs(got - float(exact)) <= 1e-11:
+                        return bad("zernikeRadialFunc(%d,%d) at r=%s is not the radial polynomial (exact rational evaluation of the factorial sum)" % (n, m, q), got, float(exact))
 
 
 def mode_spec(n, m, N, rot=0.0):
